@@ -116,6 +116,7 @@ pub fn finish_run_multi(case: &FlowCase, setups: &[Setup], w: W, d: Driver, end:
         analyze_multi(&g.log, setups, &case.preload)
     };
     let interactions = lock(&w).interactions;
+    lock(&w).push(Ev::Note(format!("run-end:{:?}", end)));
     CaseRun {
         w,
         end,
@@ -142,6 +143,18 @@ pub fn absorb(r: &mut Report, args: &Args, case_idx: u64, m: Mon, w: &W, extra: 
             m.judge("flow-completes-with-embedder-task", false, "", || format!("machine and embedder task wait for each other's lock with nothing else pending (seq {})", seq));
         } else if g.log.iter().any(|x| matches!(x.ev, Ev::EmbedderTouched)) {
             m.hit("flow-completes-with-embedder-task");
+        }
+        // bounded progress in scheduler steps (never wall-clock): a run that is neither finished, stopped by the
+        // harness nor crashed, yet has nothing left to release (or burnt its step budget), hangs
+        let stuck = g.log.iter().rev().find_map(|x| match &x.ev {
+            Ev::Note(s) if s == "run-end:Blocked" || s == "run-end:OutOfSteps" => Some(s.clone()),
+            _ => None,
+        });
+        if let Some(how) = stuck {
+            let last = g.log.iter().rev().find(|x| matches!(x.ev, Ev::Taken(_))).map(|x| format!("{:?}", x.ev)).unwrap_or_default();
+            m.judge("flow-makes-progress", false, &how, || format!("{}: the machine neither finished nor waits on anything the environment could complete; last event taken: {}", how, last.chars().take(120).collect::<String>()));
+        } else {
+            m.hit("flow-makes-progress");
         }
     }
     for (k, v) in m.hits {
